@@ -46,26 +46,46 @@ theorem shape_view_read (a : Arr) (v : View) (uix : Index) :
   cases hv : v.valid <;> cases uix <;> simp [runView, hv, bind, Except.bind, pure, Except.pure]
 
 
-theorem shape_set_coeffs (a : Arr) (c : CoeffArg) :
-    Gen.coeffSetterBody.run Gen.coeffGetterName Gen.originGetterName (.coeff c) a = setCoeffs a c := by
-  unfold Gen.coeffSetterBody Gen.coeffGetterName Gen.originGetterName
+/-- the setter shapes the model was written against, with the HDF5 names abstract -/
+def coeffSetterTemplate (cn : String) : SStmt :=
+  .seq (.raiseIf (.and (.not .argIsNone) (.and (.not .argLenZero) .argNotFlat)) .valueError)
+    (.seq (.ite (.or .argIsNone .argLenZero) (.ite (.hasData cn) (.delItem cn) .skip) (.writeData cn .float64))
+      .stampIfAuto)
+
+def originSetterTemplate (on : String) : SStmt := .seq .checkNumber (.seq (.setAttr on) .stampIfAuto)
+
+/-- the generated setter bodies are these shapes, instantiated with the names the *getters* read -/
+theorem gen_coeff_setter : Gen.coeffSetterBody = coeffSetterTemplate Gen.coeffGetterName := rfl
+theorem gen_origin_setter : Gen.originSetterBody = originSetterTemplate Gen.originGetterName := rfl
+
+theorem template_set_coeffs (cn on : String) (a : Arr) (c : CoeffArg) :
+    (coeffSetterTemplate cn).run cn on (.coeff c) a = setCoeffs a c := by
+  unfold coeffSetterTemplate
   rcases a with ⟨dt, sh, raw, cf, og⟩
   cases c with
-  | none => cases cf <;> simp [SStmt.run, SCond.eval, setCoeffs, bind, Except.bind, pure, Except.pure]
-  | scalar x => simp [SStmt.run, SCond.eval, setCoeffs, bind, Except.bind, pure, Except.pure]
+  | none => cases cf <;> simp [SStmt.run, SCond.eval, setCoeffs, bind, Except.bind, pure, Except.pure, Except.map]
+  | scalar x => simp [SStmt.run, SCond.eval, setCoeffs, bind, Except.bind, pure, Except.pure, Except.map]
   | notFlat n =>
     cases n with
-    | zero => cases cf <;> simp [SStmt.run, SCond.eval, setCoeffs, bind, Except.bind, pure, Except.pure]
-    | succ k => simp [SStmt.run, SCond.eval, setCoeffs, bind, Except.bind, pure, Except.pure]
-  | badElems b => cases b <;> simp [SStmt.run, SCond.eval, setCoeffs, bind, Except.bind, pure, Except.pure]
+    | zero => cases cf <;> simp [SStmt.run, SCond.eval, setCoeffs, bind, Except.bind, pure, Except.pure, Except.map]
+    | succ k => simp [SStmt.run, SCond.eval, setCoeffs, bind, Except.bind, pure, Except.pure, Except.map]
+  | badElems b => cases b <;> simp [SStmt.run, SCond.eval, setCoeffs, bind, Except.bind, pure, Except.pure, Except.map]
   | seq cs =>
     cases cs with
-    | nil => cases cf <;> simp [SStmt.run, SCond.eval, setCoeffs, bind, Except.bind, pure, Except.pure]
-    | cons x xs => simp [SStmt.run, SCond.eval, setCoeffs, bind, Except.bind, pure, Except.pure]
+    | nil => cases cf <;> simp [SStmt.run, SCond.eval, setCoeffs, bind, Except.bind, pure, Except.pure, Except.map]
+    | cons x xs => simp [SStmt.run, SCond.eval, setCoeffs, bind, Except.bind, pure, Except.pure, Except.map]
+
+theorem template_set_origin (cn on : String) (a : Arr) (o : OriginArg) :
+    (originSetterTemplate on).run cn on (.origin o) a = setOrigin a o := by
+  unfold originSetterTemplate
+  cases o <;> simp [SStmt.run, setOrigin, bind, Except.bind]
+
+theorem shape_set_coeffs (a : Arr) (c : CoeffArg) :
+    Gen.coeffSetterBody.run Gen.coeffGetterName Gen.originGetterName (.coeff c) a = setCoeffs a c := by
+  rw [gen_coeff_setter]; exact template_set_coeffs _ _ a c
 
 theorem shape_set_origin (a : Arr) (o : OriginArg) :
     Gen.originSetterBody.run Gen.coeffGetterName Gen.originGetterName (.origin o) a = setOrigin a o := by
-  unfold Gen.originSetterBody Gen.coeffGetterName Gen.originGetterName
-  cases o <;> simp [SStmt.run, setOrigin, bind, Except.bind, pure, Except.pure]
+  rw [gen_origin_setter]; exact template_set_origin _ _ a o
 
 end Nix.Poly.Lemmas
